@@ -72,6 +72,8 @@ def correspond(ctx, C):
                 else:
                     viol.append((r["case"], {"what": "%s: a value its schema rejects is not reported, or an accepted one is" % which,
                                              "not_reported": sorted(missed)[:6], "reported_but_accepted": sorted(extra)[:6]}))
+    npf, pfbad = S.pathfuncs_tie(ctx, C, ("visited",))
+    ties = ties + pfbad
     out = viol[:3]
     if not out and ties:
         case, info = ties[0]
@@ -90,5 +92,6 @@ def correspond(ctx, C):
     cov["documents_compared"] = compared
     cov["locations_enumerated"] = nloc
     cov["tie_mismatches"] = len(ties)
+    cov["string_function_cases"] = npf
     cov["attributed_to_known_findings"] = attributed
     return {"coverage": cov, "violations": out, "known": lines}
